@@ -279,7 +279,12 @@ def _run_case(ck, desc):
                     flag = ([True, np.True_, 1, np.bool_(True)] if desc["rescale"] else [False, np.False_, 0, np.bool_(False)])[k_flag]
                     stride = [desc["every"], np.int64(desc["every"]), np.int32(desc["every"]), desc["every"]][(int(desc["every"]) // 4) % 4]
                     ck.count(f"flag_types.rescale_as_{type(flag).__name__}")
-                    ax = bp.plot_pseudopressure(res, every=stride, rescale=flag)
+                    # (the viewing window is an option of its own: the curves stay where the nodes are)
+                    xm_ = [None, 0.5, 2.0, 0.25][(int(desc["every"]) // 2) % 4]
+                    ax = bp.plot_pseudopressure(res, every=stride, rescale=flag) if xm_ is None else bp.plot_pseudopressure(res, every=stride, rescale=flag, x_max=xm_)
+                    ck.count(f"viewing_windows.x_max={xm_}")
+                    if xm_ is not None and tuple(np.round(ax.get_xlim(), 12)) != (0.0, xm_):
+                        ck.violation("viewing-window-as-asked", {"x_max": xm_, "xlim": list(ax.get_xlim())}, desc)
                 got = _lines(ax)
                 rows = list(range(0, nt, desc["every"]))
                 if len(got) != len(rows):
